@@ -22,6 +22,14 @@ pub fn malform(r: &mut Rng, e: &mut EchoReq) -> Option<String> {
                     (2, "1.5"),
                     (2, "0x10"),
                     (2, "%20"),
+                    // encoded percent signs: the value is the text "%37",
+                    // "tru%65", "%52ed", not what a second decoding would give
+                    (2, "%2537"),
+                    (2, "-%2531"),
+                    (3, "tru%2565"),
+                    (3, "%2574rue"),
+                    (4, "%2552ed"),
+                    (4, "Re%2564"),
                     (3, "yes"),
                     (3, "TRUE"),
                     (3, "1"),
@@ -172,6 +180,9 @@ pub fn malform(r: &mut Rng, e: &mut EchoReq) -> Option<String> {
                 (3, "-1"),
                 (3, "1e3"),
                 (3, "+"),
+                (1, "%2537"),
+                (2, "%252d1"),
+                (3, "%2531"),
             ]);
             e.path_segs[idx] = bad.to_string();
             Some(format!("narrow path segment {idx} = {bad}"))
@@ -272,7 +283,7 @@ pub fn gen_random(seed: u64, idx: u64) -> Plan {
     Plan {
         property: "C10".into(),
         seed: mix(seed, idx),
-        server: ServerPlan { mode, body_limit: 65_536, api: ApiKind::Echo, rt_override: None },
+        server: ServerPlan { mode, body_limit: 65_536, api: ApiKind::Echo, rt_override: None, tls: false },
         conns,
         shutdown: None,
         accept_errs: vec![],
